@@ -7,12 +7,14 @@ Fields separated by `|`, lists by `,`.
 `C09GD  <shape> | <canvas> | <off1> | <off2> | <sep rats> | <pct> | <margin nats or d> | <pixels>`
     the content image embedded (`Locate.embed`) at `off1` and at `off2` in a black canvas, then
     `Find.greyDilation … precise=False` on both
-    -> `reject` | `hyp=<0|1> same=<0|1> thr0=<rat|nan> thr1=… thr2=… pts1=<p;p;…> pts2=<p;p;…>`
+    -> `reject` | `hyp=<0|1> emb=<0|1> same=<0|1> thr0=<rat|nan> thr1=… thr2=… pts1=<p;p;…> pts2=<p;p;…>`
     hyp  = the decidable hypotheses of `maxima_shift` hold (`padOK` for both offsets)
+    emb  = `isEmbedB` accepts both embedded images (=> `Find.IsEmbed`, `isEmbedB_sound`)
     same = `pts2 = pts1.map (shiftPos off1 off2)` (as lists, order included)
 `C09GDT <shape> | <sep> | <pct> | <margin or d> | <pixels>`
     `greyDilation` on the image and on `Locate.revImg` of it with reversed per-axis parameters
-    -> `reject` | `same=<0|1> pts=<…> ptsT=<…>`   (same: equal as sets after reversing back)
+    -> `reject` | `same=<0|1> tr=<0|1|na> pts=<…> ptsT=<…>`   (same: equal as sets after reversing
+       back; tr: `isTransposeB` accepts the pair (2-D) => `Find.IsTranspose`)
 `C09CLIP <radius> | <shape> | <maxIter> | <start ints>`  -> `ok=<0|1>`   (`Locate.clipFree`)
 `C09BATCH <row counts> | <frame numbers, n = no frame_no>`
     `Locate.batchModel` on frames whose `locate` result has the given number of rows (row `j` of
@@ -49,7 +51,8 @@ def handleGD (rest : String) : String :=
       | some p1, some p2 =>
         let hyp := padOK canvas off1 shape margin && padOK canvas off2 shape margin
         let same := p2 == p1.map (shiftPos off1 off2)
-        s!"hyp={b2s hyp} same={b2s same} thr0={showThr (percentileThr content pct)} " ++
+        let emb := isEmbedB content off1 big1 && isEmbedB content off2 big2
+        s!"hyp={b2s hyp} emb={b2s emb} same={b2s same} thr0={showThr (percentileThr content pct)} " ++
         s!"thr1={showThr (percentileThr big1 pct)} thr2={showThr (percentileThr big2 pct)} " ++
         s!"pts1={showPts p1} pts2={showPts p2}"
       | _, _ => "reject"
@@ -69,7 +72,10 @@ def handleGDT (rest : String) : String :=
         let back := pT.map List.reverse
         let same := p.length == back.length && p.all (fun q => back.contains q)
                       && back.all (fun q => p.contains q)
-        s!"same={b2s same} pts={showPts p} ptsT={showPts pT}"
+        let tr := match shape with
+          | [H, W] => b2s (isTransposeB img imgT H W)
+          | _ => "na"
+        s!"same={b2s same} tr={tr} pts={showPts p} ptsT={showPts pT}"
       | _, _ => "reject"
     | _, _, _, _, _ => "bad-op"
   | _ => "bad-op"
